@@ -13,7 +13,6 @@ O   the property on the real code, model-free: one record per dispatch (per call
     one stream_id per stream; error_message == str(exc) in full (non-empty when str(exc) is empty).
 """
 
-import contextlib
 import copy
 import json
 import logging
@@ -34,8 +33,10 @@ OBLIGATIONS = [
     "VgiVerif.C34.C34_status_unary",
     "VgiVerif.C34.C34_status_pipe_producer",
     "VgiVerif.C34.C34_status_pipe_exchange",
+    "VgiVerif.C34.C34_status_init_error",
     "VgiVerif.C34.C34_status_http_producer",
     "VgiVerif.C34.C34_status_http_exchange",
+    "VgiVerif.C34.C34_status_http_response",
     "VgiVerif.C34.C34_status_cancel",
     "VgiVerif.C34.C34_stream_id",
     "VgiVerif.C34.C34_stream_id_formatted",
